@@ -118,8 +118,6 @@ void splinetable<Alloc>::convolve(const uint32_t dim, const double* conv_knots, 
 	//space for the new ones. Most of the old knot data we still need, so we
 	//have to make temporary buffers for it.
 	
-	deallocate(this->coefficients,this->naxes[0]*this->strides[0]);
-	
 	std::unique_ptr<std::unique_ptr<double[]>[]> knots_store(new std::unique_ptr<double[]>[ndim]);
 	for (uint32_t i = 0; i < ndim; i++) {
 		//copy the old knots, except in the convolution dimension
@@ -127,7 +125,17 @@ void splinetable<Alloc>::convolve(const uint32_t dim, const double* conv_knots, 
 			knots_store[i].reset(new double[nknots[i]]);
 			std::copy(knots[i],knots[i]+nknots[i],knots_store[i].get());
 		}
+	}
+	
+	//From here on the old arrays are gone; if the new ones cannot be obtained
+	//the table is left empty rather than pointing at released memory.
+	try{
+	
+	deallocate(this->coefficients,this->naxes[0]*this->strides[0]);
+	this->coefficients=nullptr;
+	for (uint32_t i = 0; i < ndim; i++) {
 		deallocate(knots[i]-order[i],nknots[i]+2*order[i]);
+		knots[i]=nullptr;
 	}
 	
 	this->nknots[dim] = n_rho;
@@ -142,6 +150,11 @@ void splinetable<Alloc>::convolve(const uint32_t dim, const double* conv_knots, 
 		knots[i] = allocate<double>(nknots[i]+2*order[i]) + order[i];
 		double* src = (i!=dim ? knots_store[i].get() : rho);
 		std::copy(src,src+nknots[i],&knots[i][0]);
+	}
+	
+	}catch(...){
+		release_storage();
+		throw;
 	}
 	
 	/*
